@@ -202,6 +202,7 @@ static void rd_nodeD(Toks& t, PolyPathD* parent) {
 }
 
 static int64_t SENT64[1]; static double SENTD[1];
+typedef std::unique_ptr<int64_t[]> U64; typedef std::unique_ptr<double[]> UD;   // input arrays are freed on every path
 
 static Rect64 mkrect(const CRect64& r) { Rect64 x; x.left = r.left; x.top = r.top; x.right = r.right; x.bottom = r.bottom; return x; }
 static RectD mkrect(const CRectD& r) { RectD x; x.left = r.left; x.top = r.top; x.right = r.right; x.bottom = r.bottom; return x; }
@@ -245,27 +246,27 @@ static void handle(Toks& t, std::ostream& os) {
   }
   if (cmd == "MP64") {   // ConvertCPathToPathT on a CPath built by the harness from the documented layout
     Path64 p = rd_p64(t);
-    int64_t* a = h_enc_path(p);
+    U64 ua(h_enc_path(p)); int64_t* a = ua.get();
     Path64 back = ConvertCPathToPathT(a);
     os << "ARR " << (2 + p.size() * D); for (size_t i = 0; i < 2 + p.size() * D; ++i) os << ' ' << a[i];
     os << " DEC "; pr(os, back); os << " CMP " << same_paths(Paths64{back}, Paths64{p});
-    delete[] a; return;
+    return;
   }
   if (cmd == "MPD") {
     PathD p = rd_pD(t);
-    double* a = h_enc_path(p);
+    UD ua(h_enc_path(p)); double* a = ua.get();
     PathD back = ConvertCPathToPathT(a);
     os << "ARR " << (2 + p.size() * D); for (size_t i = 0; i < 2 + p.size() * D; ++i) os << ' ' << bits_of(a[i]);
     os << " DEC "; pr(os, back); os << " CMP " << same_paths(PathsD{back}, PathsD{p});
-    delete[] a; return;
+    return;
   }
   if (cmd == "MPS") {
     double scale = dbl_of(t.u64()); PathD p = rd_pD(t);
-    double* a = h_enc_path(p);
+    UD ua(h_enc_path(p)); double* a = ua.get();
     Path64 back = ConvertCPathDToPath64WithScale(a, scale);
     int ec = 0; Path64 nat = ScalePath<int64_t, double>(p, scale, ec);
     os << "DEC "; pr(os, back); os << " NAT "; pr(os, nat); os << " CMP " << same_paths(Paths64{back}, Paths64{nat});
-    delete[] a; return;
+    return;
   }
   if (cmd == "MT64") {
     PolyTree64 tree; size_t c = (size_t)t.i64(); for (size_t i = 0; i < c; ++i) rd_node64(t, &tree);
@@ -283,12 +284,12 @@ static void handle(Toks& t, std::ostream& os) {
   if (cmd == "BOOL64" || cmd == "TREE64") {
     int ct = t.i32(), fr = t.i32(); bool pc = t.b(), rs = t.b(); int nulls = t.i32();
     Paths64 sub = rd_ps64(t), subo = rd_ps64(t), clp = rd_ps64(t);
-    int64_t* a = h_enc_paths(sub, nulls & 1); int64_t* b = h_enc_paths(subo, nulls & 2); int64_t* c = h_enc_paths(clp, nulls & 4);
+    U64 ua(h_enc_paths(sub, nulls & 1)), ub(h_enc_paths(subo, nulls & 2)), uc(h_enc_paths(clp, nulls & 4));
+    int64_t* a = ua.get(); int64_t* b = ub.get(); int64_t* c = uc.get();
     int64_t* s1 = SENT64; int64_t* s2 = SENT64;
     bool valid = ct >= 0 && ct <= 4 && fr >= 0 && fr <= 3;
     int rc = cmd == "BOOL64" ? BooleanOp64((uint8_t)ct, (uint8_t)fr, a, b, c, s1, s2, pc, rs)
                              : BooleanOp_PolyTree64((uint8_t)ct, (uint8_t)fr, a, b, c, s1, s2, pc, rs);
-    delete[] a; delete[] b; delete[] c;
     os << "RC " << rc;
     if (rc != 0 || !valid) { os << " UNTOUCHED " << (s1 == SENT64 && s2 == SENT64); if (rc == 0) { if (s1 != SENT64) DisposeArray64(s1); if (s2 != SENT64) DisposeArray64(s2);} return; }
     Clipper64 cl; cl.PreserveCollinear(pc); cl.ReverseSolution(rs);
@@ -308,12 +309,12 @@ static void handle(Toks& t, std::ostream& os) {
   if (cmd == "BOOLD" || cmd == "TREED") {
     int ct = t.i32(), fr = t.i32(), prec = t.i32(); bool pc = t.b(), rs = t.b(); int nulls = t.i32();
     PathsD sub = rd_psD(t), subo = rd_psD(t), clp = rd_psD(t);
-    double* a = h_enc_paths(sub, nulls & 1); double* b = h_enc_paths(subo, nulls & 2); double* c = h_enc_paths(clp, nulls & 4);
+    UD ua(h_enc_paths(sub, nulls & 1)), ub(h_enc_paths(subo, nulls & 2)), uc(h_enc_paths(clp, nulls & 4));
+    double* a = ua.get(); double* b = ub.get(); double* c = uc.get();
     double* s1 = SENTD; double* s2 = SENTD;
     bool valid = ct >= 0 && ct <= 4 && fr >= 0 && fr <= 3 && prec >= -8 && prec <= 8;
     int rc = cmd == "BOOLD" ? BooleanOpD((uint8_t)ct, (uint8_t)fr, a, b, c, s1, s2, prec, pc, rs)
                             : BooleanOp_PolyTreeD((uint8_t)ct, (uint8_t)fr, a, b, c, s1, s2, prec, pc, rs);
-    delete[] a; delete[] b; delete[] c;
     os << "RC " << rc;
     if (rc != 0 || !valid) { os << " UNTOUCHED " << (s1 == SENTD && s2 == SENTD); if (rc == 0) { if (s1 != SENTD) DisposeArrayD(s1); if (s2 != SENTD) DisposeArrayD(s2);} return; }
     ClipperD cl(prec); cl.PreserveCollinear(pc); cl.ReverseSolution(rs);
@@ -333,8 +334,8 @@ static void handle(Toks& t, std::ostream& os) {
   if (cmd == "INFL64" || cmd == "INFP64") {
     double delta = dbl_of(t.u64()); int jt = t.i32(), et = t.i32(); double ml = dbl_of(t.u64()), at = dbl_of(t.u64()); bool rs = t.b();
     Paths64 ps; int64_t* r;
-    if (cmd == "INFL64") { ps = rd_ps64(t); int64_t* a = h_enc_paths(ps, false); r = InflatePaths64(a, delta, (uint8_t)jt, (uint8_t)et, ml, at, rs); delete[] a; }
-    else { Path64 p = rd_p64(t); ps.push_back(p); int64_t* a = h_enc_path(p); r = InflatePath64(a, delta, (uint8_t)jt, (uint8_t)et, ml, at, rs); delete[] a; }
+    if (cmd == "INFL64") { ps = rd_ps64(t); U64 a(h_enc_paths(ps, false)); r = InflatePaths64(a.get(), delta, (uint8_t)jt, (uint8_t)et, ml, at, rs); }
+    else { Path64 p = rd_p64(t); ps.push_back(p); U64 a(h_enc_path(p)); r = InflatePath64(a.get(), delta, (uint8_t)jt, (uint8_t)et, ml, at, rs); }
     ClipperOffset co(ml, at, /*preserve_collinear*/ false, /*reverse_solution*/ rs);
     if (cmd == "INFL64") co.AddPaths(ps, JoinType(jt), EndType(et)); else co.AddPath(ps[0], JoinType(jt), EndType(et));
     Paths64 nat; co.Execute(delta, nat);
@@ -348,8 +349,8 @@ static void handle(Toks& t, std::ostream& os) {
   if (cmd == "INFLD" || cmd == "INFPD") {
     double delta = dbl_of(t.u64()); int jt = t.i32(), et = t.i32(), prec = t.i32(); double ml = dbl_of(t.u64()), at = dbl_of(t.u64()); bool rs = t.b();
     PathsD ps; double* r;
-    if (cmd == "INFLD") { ps = rd_psD(t); double* a = h_enc_paths(ps, false); r = InflatePathsD(a, delta, (uint8_t)jt, (uint8_t)et, prec, ml, at, rs); delete[] a; }
-    else { PathD p = rd_pD(t); ps.push_back(p); double* a = h_enc_path(p); r = InflatePathD(a, delta, (uint8_t)jt, (uint8_t)et, prec, ml, at, rs); delete[] a; }
+    if (cmd == "INFLD") { ps = rd_psD(t); UD a(h_enc_paths(ps, false)); r = InflatePathsD(a.get(), delta, (uint8_t)jt, (uint8_t)et, prec, ml, at, rs); }
+    else { PathD p = rd_pD(t); ps.push_back(p); UD a(h_enc_path(p)); r = InflatePathD(a.get(), delta, (uint8_t)jt, (uint8_t)et, prec, ml, at, rs); }
     if (prec < -8 || prec > 8) { os << "NULLRET " << (r == nullptr); if (r) DisposeArrayD(r); return; }
     const double scale = std::pow(10, prec);
     int ec = 0;
@@ -366,9 +367,8 @@ static void handle(Toks& t, std::ostream& os) {
   }
   if (cmd == "RC64" || cmd == "RCL64") {
     CRect64 cr; cr.left = t.i64(); cr.top = t.i64(); cr.right = t.i64(); cr.bottom = t.i64(); int nulls = t.i32();
-    Paths64 ps = rd_ps64(t); int64_t* a = h_enc_paths(ps, nulls & 1);
-    int64_t* r = cmd == "RC64" ? RectClip64(cr, a) : RectClipLines64(cr, a);
-    delete[] a;
+    Paths64 ps = rd_ps64(t); U64 a(h_enc_paths(ps, nulls & 1));
+    int64_t* r = cmd == "RC64" ? RectClip64(cr, a.get()) : RectClipLines64(cr, a.get());
     Paths64 nat = cmd == "RC64" ? RectClip(mkrect(cr), ps) : RectClipLines(mkrect(cr), ps);
     finish(os, r, nat, "A1", "N1"); os << " CMP " << agrees(r, nat);
     DisposeArray64(r); return;
@@ -376,9 +376,8 @@ static void handle(Toks& t, std::ostream& os) {
   if (cmd == "RCD" || cmd == "RCLD") {
     CRectD cr; cr.left = dbl_of(t.u64()); cr.top = dbl_of(t.u64()); cr.right = dbl_of(t.u64()); cr.bottom = dbl_of(t.u64());
     int prec = t.i32(); int nulls = t.i32();
-    PathsD ps = rd_psD(t); double* a = h_enc_paths(ps, nulls & 1);
-    double* r = cmd == "RCD" ? RectClipD(cr, a, prec) : RectClipLinesD(cr, a, prec);
-    delete[] a;
+    PathsD ps = rd_psD(t); UD a(h_enc_paths(ps, nulls & 1));
+    double* r = cmd == "RCD" ? RectClipD(cr, a.get(), prec) : RectClipLinesD(cr, a.get(), prec);
     if (prec < -8 || prec > 8) { os << "NULLRET " << (r == nullptr); if (r) DisposeArrayD(r); return; }
     PathsD nat = cmd == "RCD" ? RectClip(mkrect(cr), ps, prec) : RectClipLines(mkrect(cr), ps, prec);
     finish(os, r, nat, "A1", "N1"); os << " CMP " << agrees(r, nat);
@@ -386,10 +385,9 @@ static void handle(Toks& t, std::ostream& os) {
   }
   if (cmd == "MS64" || cmd == "MD64") {
     bool closed = t.b(); Path64 pat = rd_p64(t), path = rd_p64(t);
-    int64_t* a = h_enc_path(pat); int64_t* b = h_enc_path(path);
-    CPath64 ca = a, cb = b;
+    U64 a(h_enc_path(pat)), b(h_enc_path(path));
+    CPath64 ca = a.get(), cb = b.get();
     int64_t* r = cmd == "MS64" ? MinkowskiSum64(ca, cb, closed) : MinkowskiDiff64(ca, cb, closed);
-    delete[] a; delete[] b;
     Paths64 nat = cmd == "MS64" ? MinkowskiSum(pat, path, closed) : MinkowskiDiff(pat, path, closed);
     finish(os, r, nat, "A1", "N1"); os << " CMP " << agrees(r, nat);
     DisposeArray64(r); return;
